@@ -6,7 +6,7 @@ from contracts import c07 as _c07
 from contracts import c16 as _c16
 from contracts import c19 as _c19
 
-SPEC_IMPORTS = ['contracts.common', 'contracts.c07', 'contracts.c16', 'contracts.c19']
+SPEC_IMPORTS = ['contracts.common', 'contracts.c07', 'contracts.c16', 'contracts.c19', 'contracts.c10']
 SPEC_FUNCTIONS = ['goes_to_map', 'is_file_rename']
 
 _PN = Obj('PNode')
@@ -130,3 +130,10 @@ NOT_DECIDED = ['(b) closure/partition of get_references over an arbitrary _find_
                'whether _find_names itself is right']
 TRUSTED = ['Refactoring.__init__ stores its arguments', 'pathlib model', 'dict-of-dict aliasing modelled by write-back '
            '(x = outer.setdefault(k, {}))']
+
+
+def dynamic_contracts(repo):
+    """a use reaches its definition through every chain of star imports (goto is how the reference search connects
+    occurrences): the star-import closure contracts are shared with C10"""
+    from contracts import c10
+    return [c10._star, c10._star2]
